@@ -942,7 +942,7 @@ def matches_known(kf, rf, info):
     return re.search(pat, blob) is not None
 
 
-def write_evidence(pid, tier, seed, prop, units, res, anchors, diff_hash, removed_lines, wall, violations, assumptions, known_hits, extracted):
+def write_evidence(pid, tier, seed, prop, units, res, anchors, diff_hash, removed_lines, wall, violations, assumptions, known_hits, extracted, partial=False):
     complete = {n: o for n, o in res.obl.items() if o["level"] == "P"}
     bounded = {n: o for n, o in res.obl.items() if o["level"] == "B"}
     disc = lambda d: sum(1 for o in d.values() if o["status"] == "discharged")
@@ -1003,7 +1003,9 @@ def write_evidence(pid, tier, seed, prop, units, res, anchors, diff_hash, remove
         "assumptions": assumptions, "wall_s": round(wall, 1), "violations": violations,
     }
     os.makedirs(EVID, exist_ok=True)
-    with open(os.path.join(EVID, pid + ".json"), "w") as fh:
+    # a --unit run covers only part of the property: never overwrite the property's evidence with it
+    fname = pid + (".partial.json" if partial else ".json")
+    with open(os.path.join(EVID, fname), "w") as fh:
         json.dump(ev, fh, indent=1, sort_keys=False)
         fh.write("\n")
 
@@ -1096,7 +1098,7 @@ def main(argv):
             difftext, removed = overlay_diff(orig, files, scratch.src)
             diff_hash = hashlib.sha256(difftext.encode()).hexdigest()
             os.makedirs(EVID, exist_ok=True)
-            with open(os.path.join(EVID, pid + ".overlay.diff"), "w") as fh:
+            with open(os.path.join(EVID, pid + (".partial" if only_units else "") + ".overlay.diff"), "w") as fh:
                 fh.write(difftext)
             if removed:
                 raise Undecided("overlay removed %d lines (must be add-only)" % removed)
@@ -1166,7 +1168,7 @@ def main(argv):
         assumptions += scan_assumptions(units)
         wall = time.time() - t0
         write_evidence(pid, tier, seed, prop, units, res, anchors, diff_hash, removed, wall, violations,
-                       assumptions, known_hits, extracted)
+                       assumptions, known_hits, extracted, partial=bool(only_units))
         nP = sum(1 for o in res.obl.values() if o["level"] == "P")
         nB = sum(1 for o in res.obl.values() if o["level"] == "B")
         dP = sum(1 for o in res.obl.values() if o["level"] == "P" and o["status"] == "discharged")
